@@ -1,9 +1,11 @@
 #!/bin/bash
 # every stored behaviour-preserving patch (refactorings/*/patch.diff) x every check, on scratch copies: expected exit 0 everywhere
+# usage: refactor_matrix.sh [parallel patches, default 4]
 cd /verif
-for d in refactorings/*/; do n=$(basename $d)
+one() {
+  n=$1
   SCR=/var/tmp/kvcscratch/refm_$n; rm -rf $SCR; mkdir -p $SCR/repo $SCR/out; cp -r /repo/kingdon $SCR/repo/kingdon
-  (cd $SCR/repo && patch -s -p1 < /verif/$d/patch.diff) || { echo "$n: patch does not apply"; rm -rf $SCR; continue; }
+  (cd $SCR/repo && patch -s -p1 < /verif/refactorings/$n/patch.diff) || { echo "$n: patch does not apply"; rm -rf $SCR; return; }
   line="$n:"; bad=0; oos=0; obl=0
   for p in $(ls props | grep -o '^C[0-9][0-9]' | sort -u); do
     KVC_REPO=$SCR/repo KVC_OUT=$SCR/out ./check $p --tier quick > $SCR/out/$p.log 2>&1; rc=$?
@@ -14,4 +16,6 @@ for d in refactorings/*/; do n=$(basename $d)
   done
   echo "$line alarms=$bad discharged=$obl out_of_subset=$oos"
   rm -rf $SCR
-done
+}
+export -f one
+ls refactorings | xargs -P ${1:-4} -I{} bash -c 'one {}'
